@@ -82,7 +82,7 @@ bool matches (const long double* truth, const long double* got, int n, long doub
 
 struct Tal
 {
-    long long n = 0, tr = 0, lin = 0, quad2 = 0, quad1 = 0, quad0 = 0, quadgraded = 0, cub3 = 0, cub1_qpos = 0, cub1_qneg = 0, cub1_q0 = 0, triple = 0,
+    long long n = 0, tr = 0, lin = 0, quad2 = 0, quad1 = 0, quad0 = 0, quadgraded = 0, cubdouble = 0, cub3 = 0, cub1_qpos = 0, cub1_qneg = 0, cub1_q0 = 0, triple = 0,
               deleg = 0, illcond = 0, inexact = 0;
 };
 
@@ -293,6 +293,53 @@ template <class T> void roots_stage (const std::string& tn)
                     run_cubic (L, Rr, Sr, Tr, 1, x, bound, false, cls);
                 }
             }
+    // ---------- a double root a and a simple root b, well separated from it: (x-a)^2 (x-b).
+    // The double root is infinitely ill-conditioned, so neither the count nor its value is demanded; what the statement
+    // still promises is judged a priori, independently of which branch the rounded discriminant selects:
+    //   (i)  the SIMPLE root b (perfectly conditioned: p'(b) = (b-a)^2) is returned, within 64 eps scale^3 / |p'(b)|;
+    //   (ii) every returned value is a root in the backward sense: |p(x)| <= 64 eps scale^3  (monic form) —
+    //        near the double root this admits a +- sqrt(eps)-sized spread, nowhere else anything;
+    //   (iii) 1 <= count <= 3.
+    // Both signs of b - a occur, i.e. both signs of the depressed cubic's q (the D == 0 branch takes the cube root of -q/2).
+    for (const Rat& ra : Q)
+        for (const Rat& rb : Q)
+        {
+            if (ra == rb) continue;
+            Rat Rr = -(ra + ra + rb), Sr = ra * ra + Rat (2) * ra * rb, Tr = -(ra * ra * rb);
+            long double al = ra.ld (), bl = rb.ld ();
+            for (const Rat& L : LEADS)
+            {
+                T a, b, c, d, r, s2, tt;
+                if (!coef (L, a) || !coef (L * Rr, b) || !coef (L * Sr, c) || !coef (L * Tr, d) || !coef (Rr, r) || !coef (Sr, s2) || !coef (Tr, tt)) continue;
+                ++t.n; ++t.cubdouble;
+                for (int entry = 0; entry < 2; ++entry)
+                {
+                    if (entry == 1 && !(L == Rat (1))) continue;
+                    T   x[3] = {99, 99, 99};
+                    int cnt  = entry == 0 ? IM::solveCubic (a, b, c, d, x) : IM::solveNormalizedCubic (r, s2, tt, x);
+                    ++t.tr;
+                    std::string ep = entry == 0 ? "solveCubic" : "solveNormalizedCubic";
+                    std::string in = std::string (Msg () << tn << " (x-a)^2(x-b) a=" << (double) al << " b=" << (double) bl << " lead=" << (double) L.ld ());
+                    if (cnt < 1 || cnt > 3) { R ().fail (ep + ".double-root.count", in, "1..3", fmt (cnt)); continue; }
+                    long double Rl = Rr.ld (), Sl = Sr.ld (), Tl = Tr.ld ();
+                    // normwise bounds (Cardano's formula forms each root as a sum of terms of the size of the largest root, so
+                    // the error is absolute in that scale, as for the other cubic classes above): scale = max(|a|,|b|)
+                    const long double scale = std::max (absl (al), absl (bl)), sc3 = scale * scale * scale;
+                    long double tolb = 64 * EPS * sc3 / ((bl - al) * (bl - al));
+                    bool have_b = false;
+                    for (int i = 0; i < cnt; ++i)
+                    {
+                        long double xi = (long double) x[i];
+                        if (absl (xi - bl) <= tolb) have_b = true;
+                        long double res = ((xi + Rl) * xi + Sl) * xi + Tl; // exact coefficients, long double evaluation
+                        long double mag = std::max (sc3, absl (xi * xi * xi));
+                        if (!(absl (res) <= 64 * EPS * mag))
+                            R ().fail (ep + ".double-root.returned-value-is-not-a-root", in + " returned[" + std::to_string (i) + "]", "|p(x)| <= " + fmt (64 * EPS * mag), std::string (Msg () << x[i]) + " p(x)=" + fmt (res));
+                    }
+                    if (!have_b) R ().fail (ep + ".double-root.simple-root-missing", in, fmt (bl) + " +- " + fmt (tolb), Msg () << cnt << ": " << x[0] << " " << x[1] << " " << x[2]);
+                }
+            }
+        }
     // triple root at a small integer: exact (p = q = 0 are computed without rounding)
     for (int k = -3; k <= 3; ++k)
         for (const Rat& L : LEADS)
@@ -307,6 +354,7 @@ template <class T> void roots_stage (const std::string& tn)
     R ().cls ("roots." + tn + ".quadratic.two-roots", t.quad2); R ().cls ("roots." + tn + ".quadratic.double-root", t.quad1);
     R ().cls ("roots." + tn + ".quadratic.no-real-root", t.quad0);
     R ().cls ("roots." + tn + ".quadratic.roots-2^-k-and-m*2^k", t.quadgraded);
+    R ().cls ("roots." + tn + ".cubic.double-root-plus-simple-root", t.cubdouble);
     R ().cls ("roots." + tn + ".cubic.three-real-roots", t.cub3);
     R ().cls ("roots." + tn + ".cubic.one-real-root.q>0", t.cub1_qpos); R ().cls ("roots." + tn + ".cubic.one-real-root.q<0", t.cub1_qneg);
     R ().cls ("roots." + tn + ".cubic.one-real-root.q=0", t.cub1_q0);
